@@ -443,8 +443,10 @@ func (nfs *Nfs) doCreate(dfh nfstypes.Nfs_fh3, name nfstypes.Filename3, kind nfs
 		dip.WriteInode(op.Atxn)
 	}
 	if kind == nfstypes.NF3LNK {
-		_, ok := ip.Write(op.Atxn, uint64(0), uint64(len(data)), data)
-		if !ok {
+		n, ok := ip.Write(op.Atxn, uint64(0), uint64(len(data)), data)
+		if !ok || n != uint64(len(data)) {
+			// out of space part-way: do not create a link with a
+			// truncated target
 			nfs.doDecLink(op, ip)
 			err = nfstypes.NFS3ERR_NOSPC
 			return
